@@ -421,7 +421,7 @@ theorem hupdate_good {s : HStore p} (h : HInv s) (wb : Bool)
   have hadd : ∀ x, (s.updateWith wb).add x = none := by intro x; unfold HStore.updateWith; simp only []
   have hdel : ∀ x, (s.updateWith wb).del x = none := by intro x; unfold HStore.updateWith; simp only []
   have hbcc : (s.updateWith wb).bcC = (s.updateWith wb).bc := by
-    unfold HStore.updateWith; simp only []; split <;> rfl
+    unfold HStore.updateWith; simp only []
   refine ⟨?_, ?_, ?_, ?_⟩
   · intro _ x c hx; rw [hadd] at hx; cases hx
   · intro _ x _ _
